@@ -173,6 +173,16 @@ def main(quick=False):
           [(x, i) for x in A[::9] for i in [np.array(v) for v in itertools.product(range(-4, 4), repeat=2)] + [np.array([], dtype=int)]])
     audit("boolean-mask gather", lambda m, x, k: x[k], lambda m, x, k: x[k], [(x, k) for x in A[::3] for k in B if len(k) == len(x)])
     audit("flatnonzero", lambda m, k: m.flatnonzero(k), lambda m, k: m.flatnonzero(k), [(k,) for k in B] + [(a,) for a in A[::5]])
+    audit("delete(x, flatnonzero(k))", lambda m, x, k: m.delete(x, m.flatnonzero(k)), lambda m, x, k: m.delete(x, m.flatnonzero(k)),
+          [(x, k) for x in A[::3] for k in B if len(k) in (len(x), len(x) - 1, len(x) + 1)])
+    audit("delete(x, flatnonzero(k) + 1)", lambda m, x, k: m.delete(x, m.flatnonzero(k) + 1), lambda m, x, k: m.delete(x, m.flatnonzero(k) + 1),
+          [(x, k) for x in A[::3] for k in B if len(k) in (len(x), len(x) - 1)])
+
+    def _inplace_shift(m, x, k):
+        pos = m.flatnonzero(k)
+        pos += 1
+        return m.delete(x, pos)
+    audit("delete(x, pos) after pos += 1", _inplace_shift, _inplace_shift, [(x, k) for x in A[::5] for k in B if len(k) in (len(x), len(x) - 1)])
     audit("where", lambda m, k, x, y: m.where(k, x, y), lambda m, k, x, y: m.where(k, x, y),
           [(k, x, 7) for x in A[::4] for k in B if len(k) == len(x)] + [(k, 5, x) for x in A[::6] for k in B if len(k) == len(x)])
     for nm in ("minimum", "maximum", "add", "subtract", "multiply", "less", "greater_equal", "equal", "not_equal"):
